@@ -1143,6 +1143,62 @@ FORCED = [
 ]
 
 
+def inline_custom_cases(ck, rng, stats, n, only=None, reqs=None, metas=None):
+    """`harness/lib_c18inline.py`: models written at ai.onnx 11-17 holding user-defined operators
+    next to nodes that need conversion, inlined into programs at opset 18-21 (public API only)."""
+    from harness import lib_c18inline as L
+
+    specs = [only] if only is not None else [L.gen_spec(rng, i) for i in range(n)]
+    dist = {}
+    # observation facet (tie H of `CustomInline.decide`): which models does spox hand to the converter?
+    calls, vc, orig = [], None, None
+    try:
+        import onnx.version_converter as vc
+
+        orig = vc.convert_version
+
+        def recording(model, target, *a, **k):
+            if model.graph.name != "spox__singleton_adapter_graph":
+                calls.append((max([o.version for o in model.opset_import if o.domain in ("", "ai.onnx")], default=None), target))
+            return orig(model, target, *a, **k)
+
+        vc.convert_version = recording
+    except Exception as e:  # noqa: BLE001
+        ck.broken("correspondence", "onnx.version_converter not observable", f"{type(e).__name__}: {e}")
+        vc = None
+    try:
+        _inline_custom_loop(ck, L, specs, dist, calls, only, reqs, metas)
+    finally:
+        if vc is not None and orig is not None:
+            vc.convert_version = orig
+    stats["inline_custom"] = dist
+
+
+def _inline_custom_loop(ck, L, specs, dist, calls, only, reqs, metas):
+    for spec in specs:
+        del calls[:]
+        try:
+            verdicts, info = L.run_spec(spec)
+        except Exception as e:  # noqa: BLE001
+            ck.broken("correspondence", "inline-custom case not observable (extension interface / onnx helpers)",
+                      f"{type(e).__name__}: {e}; spec={spec}")
+            continue
+        if reqs is not None and info.get("imports") and "" in info["imports"]:
+            real = {"decision": "convert", "src": calls[0][0], "tgt": calls[0][1]} if calls else {"decision": "keep"}
+            reqs.append({"kind": "adapt", "imports": info["foreign_imports"], "domains": info["foreign_domains"],
+                         "target": info["imports"][""]})
+            metas.append(("adapt", spec, real))
+        ck.count(("inline-custom", repr(spec)))
+        dist[spec["variant"]] = dist.get(spec["variant"], 0) + 1
+        for c in spec["chain"]:
+            if c[0] == "d":
+                dist["step:" + c[1]] = dist.get("step:" + c[1], 0) + 1
+        for key, what in verdicts:
+            ck.failure(key, what, {"kind": "inline-custom", "spec": spec})
+        if only is not None:
+            print("foreign:", info.get("foreign_ops"), "built:", info.get("built_ops"), "imports:", info.get("imports"))
+
+
 def run(ck: core.Check):
     ck.lean(["SpoxModel.Props.C18"], audit="SpoxModel.Audit.C18")
     if ck.thorough:
@@ -1221,6 +1277,8 @@ def run(ck: core.Check):
         relabel_cases(ck, env, rng, stats, ck.pick(60, 600))
     except Exception as e:  # noqa: BLE001
         ck.broken("correspondence", "relabelling cases not observable", f"{type(e).__name__}: {e}")
+    # a custom operator inside an inlined model, next to default-domain nodes that need opset adaptation
+    inline_custom_cases(ck, rng, stats, ck.pick(120, 1200), reqs=reqs, metas=metas)
     # execution
     for position in ("top", "if", "twice"):
         for k in (2.5, -0.75):
@@ -1240,6 +1298,8 @@ def run(ck: core.Check):
                 d = compare_model(ck, kind, sig, real, m, env)
             except Exception as e:  # noqa: BLE001
                 d = f"comparison not observable: {type(e).__name__}: {e}"
+        elif kind == "adapt":
+            d = None if m == real else f"adapt_inline decision: model {m} vs observed {real}"
         elif kind == "reinfer":
             want = [{"key": k, "type": "T0", "value": "V0"} for k in real]
             d = None if m.get("outs") == want and m.get("warns") == [] else f"second inference: model {m}"
@@ -1296,6 +1356,8 @@ def replay(ck: core.Check, doc) -> bool:
         exec_case(ck, env, c["position"], c["k"], stats)
     elif c["kind"] == "reinfer":
         reinfer_case(ck, env, fix(c["sig"]), rng)
+    elif c["kind"] == "inline-custom":
+        inline_custom_cases(ck, rng, stats, 1, only=c["spec"])
     elif c["kind"] == "relabel":
         class _R:  # replays the recorded choice of relabelled nodes
             def randrange(self, n):
